@@ -31,7 +31,7 @@ def dump(tmp, tag, nproc, hashseed, n, only):
 def main():
     ap = argparse.ArgumentParser()
     ap.add_argument("--n", type=int, default=15, help="runs per op per workload")
-    ap.add_argument("--only", default="A,B,C")
+    ap.add_argument("--only", default="A,B,C,W")
     a = ap.parse_args()
     tmp = tempfile.mkdtemp(prefix="selftest_", dir=None)
     runs = [("a_16_h0", 16, 0), ("b_16_h0", 16, 0), ("c_4_h0", 4, 0), ("d_16_h77", 16, 77)]
